@@ -30,7 +30,7 @@ pub struct C18;
 /// exercise every piece of mutable state; the rest are pairs that a lossy
 /// process-wide cache key would confuse (flags that look like a pattern prefix,
 /// same pattern under different flags, same text under the other dialect).
-const POOL: [(&str, &str, [&str; 2], &str); 13] = [
+const POOL: [(&str, &str, [&str; 2], &str); 14] = [
     ("(a)(b)?", "", ["aab", "xab -- 0123456789 0123456789 0123456789 0123456789 0123456789 -- a -- ab ...."], "<$1|$2>"),
     ("(?:a?|b)*c", "", ["cabc", "aab 0123456789 0123456789 0123456789 0123456789 0123456789 xx abc xx c tail.."], "<$0>"),
     ("(a)\\1|b", "i", ["aAb", "ab 0123456789 0123456789 0123456789 0123456789 0123456789 xx aA xx Aa tail.."], "<$1>"),
@@ -45,6 +45,8 @@ const POOL: [(&str, &str, [&str; 2], &str); 13] = [
     // matches the empty string, but no substring of the first input: the error of the scan
     // APIs must not depend on an earlier is_match
     ("^a*$", "", ["b", "ab 0123456789 0123456789 0123456789 0123456789 0123456789 xx aa xx a tail.."], "<$0>"),
+    // an optional group referenced later, behind a literal: registers of an earlier call
+    ("x(a)?b\\1", "", ["xaba", "zaxba 0123456789 0123456789 0123456789 0123456789 0123456789 xb xaba tail.."], "-"),
     // an invalid replacement string: the same error on every call
     ("b", "", ["abc", "xab 0123456789 0123456789 0123456789 0123456789 0123456789 -- b -- ab ...."], "x$y"),
 ];
@@ -657,6 +659,15 @@ fn base_scenarios() -> Vec<Scenario> {
                 Arc::new(|r| vec![imp::is_match(&r[0], "bd").show(), tok(&r[0], "acbc")]),
             ],
             describe: vec!["is_match(\"abc\")", "is_match(\"bd\"); tokenize(\"acbc\") drained"],
+        },
+        Scenario {
+            name: "shared (a|aa)*c: is_match || replace_all and analyze with captures",
+            patterns: vec![("(a|aa)*c", "")],
+            bodies: vec![
+                Arc::new(|r| vec![imp::is_match(&r[0], "aab").show()]),
+                Arc::new(|r| vec![imp::replace_all(&r[0], "xaac", "[$1]").show(), an(&r[0], "ac")]),
+            ],
+            describe: vec!["is_match(\"aab\")", "replace_all(\"xaac\",\"[$1]\"); analyze(\"ac\") drained"],
         },
         Scenario {
             name: "two regexes, compile of \\p{IsGreek} in one thread while the other matches",
